@@ -218,7 +218,7 @@ def find_primitive(rng, p, k, mod):
     """a random primitive element of F_p[X]/(mod) as a coefficient list (trailing zeros dropped)"""
     P = PF(p, k, sum(c * p ** i for i, c in enumerate(mod)))
     while True:
-        g = P.elt(rng.range(p, P.q - 1))
+        g = P.elt(rng.range(p if k > 1 else 1, P.q - 1))
         if P.order_is_full(g):
             g = list(g)
             while g and g[-1] == 0:
@@ -341,6 +341,7 @@ def hash3(v):
 ARR_VARIANTS = ["mul", "mul_s", "div", "div_s", "add", "add_s", "sub", "sub_s", "neg", "inv",
                 "axpy", "axpy_s", "axpyin", "axmy", "axmy_s", "maxpyin"]
 ARR_CODE = {v: i for i, v in enumerate(ARR_VARIANTS)}
+ARR_TWO = ("mul", "div", "add", "sub", "axpy", "axmy")        # forms with two array operands besides the destination
 
 
 def loop_styles():
@@ -605,6 +606,38 @@ def gen_ops(rng, fc, per, styles, tier):
             pre = 1 if styles.get(v, False) else 0
             tail = "%d %d | %s | %s | %s" % (sz, s, " ".join(map(str, r)), " ".join(map(str, x)), " ".join(map(str, y)))
             L.append(("arr", "arr %s %s" % (v, tail), "arr %d %d %s" % (ARR_CODE[v], pre, tail), (v, sz, s, r, x, y)))
+    # array forms with ALIASED array arguments (arrays as locations): rx = x is the destination array, ry = y is, xy = x and y are
+    # one array, rxy = all three.  Fields with q <= 16: ONE call per (form, pattern, scalar) whose arrays enumerate ALL operand pairs
+    # (index = pair), i.e. the full field; larger fields: the boundary elements + random ones.  Deterministic for every seed.
+    mone = N if fc.p == 2 else N // 2
+    for v in ARR_VARIANTS:
+        two = v in ARR_TWO
+        for al in (("rx", "ry", "xy", "rxy") if two else ("rx",)):
+            for s in ([0, N, mone, rng.range(0, N)] if q <= 16 else [rng.choice([0, N, mone]), rng.range(1, N)]):
+                if v == "div_s" and s == 0:
+                    continue
+                if q <= 16:
+                    ps = [(a, b) for a in range(q) for b in range(q)] if (two and al in ("rx", "ry")) else [(a, a) for a in range(q)]
+                else:
+                    es = elements_sample(rng, q, 9)
+                    ps = [(a, rng.choice(es)) for a in es] if (two and al in ("rx", "ry")) else [(a, a) for a in es]
+                if v == "div":
+                    ps = [(a, b) for (a, b) in ps if b != 0]
+                if v == "inv":
+                    ps = [(a, b) for (a, b) in ps if a != 0]
+                x = [a for a, _ in ps]
+                y = [b for _, b in ps] if two else [rng.range(0, N)]
+                r = list(x) if al in ("rx", "rxy") else (list(y) if al == "ry" else [rng.range(0, N) for _ in ps])
+                sz = len(ps)
+                tail = "%d %d | %s | %s | %s" % (sz, s, " ".join(map(str, r)), " ".join(map(str, x)), " ".join(map(str, y)))
+                la = 0 if al in ("rx", "rxy") else 1
+                lb = (0 if al in ("ry", "rxy") else (la if al == "xy" else 2)) if two else la
+                mline = "arrl %d %d %d %d 0 %d %d | %s | %s | %s" % (ARR_CODE[v], sz, s, (y[0] if not two else 0), la, lb,
+                                                                    " ".join(map(str, r)), " ".join(map(str, x)), " ".join(map(str, y)))
+                L.append(("arra", "arr %s@%s %s" % (v, al, tail), mline, (v, al, sz, s, r, x, y)))
+    es = elements_sample(rng, q, 7) if q > 16 else list(range(q))
+    tail = "%d | %s | %s" % (len(es), " ".join(map(str, es)), " ".join(map(str, es)))
+    L.append(("dot", "dot@xy " + tail, "dot " + tail, (len(es), es, es)))
     for sz in [0, 1, 2, rng.range(3, 12), rng.range(3, 12)]:
         x = [rng.choice([0, N, rng.range(0, N), rng.range(0, N)]) for _ in range(sz)]
         y = [rng.choice([0, N, rng.range(0, N), rng.range(0, N)]) for _ in range(sz)]
@@ -634,19 +667,6 @@ def gen_ops(rng, fc, per, styles, tier):
 
 def main(tier, replay=None):
     chk = vf.Check("C05", tier, "proof")
-    # findings handed back in frag/ are honoured until the coordinator moves them to known_findings.json
-    _orig_known = vf.load_known
-
-    def _known():
-        ks = list(_orig_known())
-        fp = os.path.join(vf.ROOT, "frag", "C05.findings.json")
-        if os.path.exists(fp):
-            have = {(k.get("property"), k.get("site"), k.get("klass")) for k in ks}
-            for k in json.load(open(fp)):
-                if (k.get("property"), k.get("site"), k.get("klass")) not in have:
-                    ks.append(k)
-        return ks
-    vf.load_known = _known
     rng = vf.Rng(chk.seed)
     chk.cov["trusted_base"] = [
         "Coq 8.16.1 kernel + vm_compute (no native_compute)",
@@ -658,12 +678,7 @@ def main(tier, replay=None):
         "g++ / x86-64 for the implementation side",
     ]
     # 1. proofs (coq/C05 reuses the compiled objects of coq/C09: built here only when they are missing)
-    need = ["Model.vo", "ProofsAlg.vo", "ProofsDiv.vo", "ProofsIrr.vo"]
-    if not all(os.path.exists(os.path.join(vf.coq_dir("C09"), x)) for x in need):
-        ok9, out9 = vf.coq_make("C09", targets=need, jobs=4)
-        if not ok9:
-            chk.broke("coq/C09 objects needed by coq/C05 (irreducible_b, brute_order and their proofs) do not build", out9[-2000:])
-    res = vf.coq_check_props(AREA)
+    res = coq_props_needed_only()
     chk.proof_result(res, AREA)
     # 2. executables
     drv, l1 = vf.ocaml_build(AREA) if os.path.exists(os.path.join(vf.coq_dir(AREA), "ocaml", "model.ml")) else (None, "extraction did not run")
@@ -713,6 +728,17 @@ def main(tier, replay=None):
         # coefficients given as arbitrary integers (negative / >= p): the constructor reduces them with Zp.init
         m2 = [c + p * rng.range(-2, 2) for c in m]
         fields.append(FieldCase(64 if T == 32 else 32, "mod", p, k, mod=m2))
+    # second macro set of gfq.inl (#ifdef __GIVARO_COUNT__, different MUL formula, no (TT) casts): fields given by modulus AND
+    # generator (constructed identically by every build); they go through the whole pipeline below, and afterwards the same
+    # input lines are run on a harness compiled with -D__GIVARO_COUNT__, whose answers must be identical line by line
+    count_fields = []
+    for (T, p, k) in [(32, 2, 1), (64, 3, 1), (32, 5, 1), (64, 2, 2), (32, 7, 1), (32, 2, 3), (64, 3, 2), (32, 13, 1), (64, 2, 4), (32, 5, 2), (64, 3, 3),
+                      (32, 7, 2), (64, 2, 6), (32, 251, 1), (32, 2, 12)] + ([(64, 3, 8), (32, 2, 15)] if tier == "thorough" else []):
+        m = find_irreducible(rng, p, k, True) if k > 1 else [0, 1]
+        fcx = FieldCase(T, "modgen", p, k, mod=m, gen=find_primitive(rng, p, k, m))
+        fcx.count_cfg = True
+        count_fields.append(fcx)
+    fields += count_fields
     big = [FieldCase(64, "auto", 2, 20, full=False), FieldCase(64, "auto", 4194301, 1, full=False)]
     fields += big          # GF(2^20), GF(4194301): implementation vs oracle only (no model tables)
     # every way of obtaining the field object (constructed in place, copy-constructed, assigned over a default-constructed
@@ -732,14 +758,14 @@ def main(tier, replay=None):
     vf.log("[C05] proofs+builds+generation: %.1fs since start" % (time.time() - chk.t0))
     rc, iout, ierr = run_impl(himpl, "\n".join(impl_in) + "\n", 240 if tier == "quick" else 3600, 1800 if tier == "quick" else 7200)
     vf.log("[C05] implementation harness: %.1fs since start" % (time.time() - chk.t0))
-    if rc == 124:
-        inconclusive(chk, "GFqDom harness reached the wall-clock limit after %d/%d lines" % (len(iout), len(impl_in)))
+    if nonverdict(rc):
+        inconclusive(chk, "GFqDom harness: %s after %d/%d lines" % ("wall-clock limit" if rc == 124 else "killed from outside (SIGKILL, rc=%s)" % rc, len(iout), len(impl_in)))
     if rc != 0 or len(iout) != len(impl_in):
         # the library crashed or hung on the line after the last answered one: that line is the failing input
         n = len(iout)
         fl = [l for l in impl_in[:n + 1] if l.startswith("field")]
-        if rc != 124:
-            chk.fail_input("GFqDom (crash or hang inside the library)", "hang" if rc in CPU_KILLED else "crash",
+        if not nonverdict(rc) and (rc not in CPU_KILLED or confirm_hang(chk, himpl, fl[-1] if fl else None, impl_in[n] if n < len(impl_in) else None, 600)):
+            chk.fail_input("GFqDom (crash or hang inside the library)", "does not return" if rc in CPU_KILLED else "crash",
                            {"field": fl[-1] if fl else None, "line": impl_in[n] if n < len(impl_in) else None},
                            "an answer", "rc=%s after %d/%d lines" % (rc, n, len(impl_in)), ierr[-500:])
         # the fields answered completely before that are still compared (they usually show the element-level cause)
@@ -753,6 +779,39 @@ def main(tier, replay=None):
         fields = done
         if not fields:
             return chk.finish()
+    n_fields_generated = len(fields)
+    # 4b. the configuration with the second macro set
+    hcnt, lcnt = build_harness_retry("c05_gfq.C", deps=("c05_alias.h",), extra_flags=("-D__GIVARO_COUNT__",), name="c05_gfq_count")
+    dist_cnt = {"count-config:lines-compared": 0}
+    if hcnt is None:
+        inconclusive(chk, "the harness does not compile with -D__GIVARO_COUNT__ (second macro set of gfq.inl not exercised): " + lcnt[-300:].replace("\n", " "))
+    else:
+        cin, cexp, pos0 = [], [], 0
+        for fc in fields:
+            nl = 1 + len(fc.lines)
+            if getattr(fc, "count_cfg", False) and pos0 + nl <= len(iout):
+                cin += impl_in[pos0:pos0 + nl]
+                cexp += iout[pos0:pos0 + nl]
+            pos0 += nl
+        rcc, cout, cerr = run_impl(hcnt, "\n".join(cin) + "\n", 240 if tier == "quick" else 1800, 1800)
+        if nonverdict(rcc):
+            inconclusive(chk, "__GIVARO_COUNT__ harness: no verdict (rc=%s) after %d/%d lines" % (rcc, len(cout), len(cin)))
+        elif rcc != 0 or len(cout) != len(cin):
+            nn = len(cout)
+            chk.fail_input("GFqDom under __GIVARO_COUNT__ (second macro set of gfq.inl)", "crash", {"line": cin[nn] if nn < len(cin) else None},
+                           "an answer", "rc=%s after %d/%d lines" % (rcc, nn, len(cin)), cerr[-300:])
+        nb = 0
+        cur_field = None
+        for li, a_std, a_cnt in zip(cin, cexp, cout):
+            if li.startswith("field"):
+                cur_field = li
+            dist_cnt["count-config:lines-compared"] += 1
+            if a_std != a_cnt and nb < 10:
+                nb += 1
+                chk.fail_input("GFqDom under __GIVARO_COUNT__ (second macro set of gfq.inl)", "differs from the standard macro set",
+                               {"field": cur_field, "line": li[:200]}, a_std[:200], a_cnt[:200],
+                               "same field (modulus and generator prescribed), same call: the build with the counting macros answers differently")
+        vf.log("[C05] __GIVARO_COUNT__ configuration: %d lines compared, %.1fs since start" % (dist_cnt["count-config:lines-compared"], time.time() - chk.t0))
     # 5. the model on the same fields, built from the (f, g) the implementation reports
     dist_ext = {}
     pos = 0
@@ -991,6 +1050,30 @@ def main(tier, replay=None):
                     ncorr += 1
                     if mg.strip() != got.strip() and not bad:
                         chk.broke("correspondence model/implementation differs on %s '%s': model=%s impl=%s" % (fname, il, mg, got))
+            elif kind == "arra":
+                v, al, sz, s, r, x_, y_ = meta
+                bump("arr:%s@%s" % (v, al))
+                chk.count((fname, il))
+                exp = arr_spec(P, val, v, s, r, x_, y_)          # from the contents BEFORE the call (aliased arrays have equal contents)
+                site = "GFqDom array forms, destination aliases an operand" if "r" in al else "GFqDom array forms, operands alias each other"
+                bad = None
+                if not got.startswith("R"):
+                    bad = True
+                    chk.fail_input(site, "%s %s" % (v, al), dict(case, variant=v, alias=al), "R " + " ".join(str(P.num(e)) for e in exp), got, "the call did not return")
+                else:
+                    rr = [int(z) for z in got.split()[1:]]
+                    bad = [i for i in range(sz) if val(rr[i]) != exp[i]] if len(rr) == sz else list(range(sz))
+                    if bad:
+                        i0 = bad[0]
+                        chk.fail_input(site, "%s %s" % (v, al), dict(case, variant=v, alias=al, first_wrong_index=i0, operands=[x_[i0], (y_[i0] if i0 < len(y_) else None), s]),
+                                       "p-adic %s" % P.num(exp[i0]), "rep %s" % (rr[i0] if i0 < len(rr) else None),
+                                       "%d of %d elements differ from the call with distinct arrays of the same contents" % (len(bad), sz))
+                if mg is not None:
+                    ncorr += 1
+                    if mg.strip() != got.strip() and not bad:
+                        chk.broke("correspondence model/implementation differs on %s '%s': model=%s impl=%s" % (fname, il[:120], mg[:120], got[:120]))
+                    if exp is not None and mg.startswith("R") and [val(int(z)) for z in mg.split()[1:]] != exp:
+                        chk.broke("extracted location model differs from the specification oracle on %s '%s'" % (fname, il[:120]))
             elif kind == "dot":
                 sz, x_, y_ = meta
                 bump("dot:sz=%s" % (sz if sz < 3 else "n"))
@@ -1065,6 +1148,28 @@ def main(tier, replay=None):
     chk.cov["call_forms"] = {("GFqDom::" + k.split(":", 1)[1] + {"op": "", "opa": "[aliased]", "arr": "[array]", "dot": "[dotprod]", "cvt": "[init/convert]"}[k.split(":", 1)[0]])
                              if not k.startswith("form:") else k[5:]: v
                              for k, v in sorted(dist.items()) if k.split(":", 1)[0] in ("op", "opa", "arr", "dot", "cvt", "form")}
+    dist.update(dist_cnt)
+    # FLOOR on what was actually compared: an inconclusive stream must not look like a pass of that stream
+    floor_missed = []
+    n_model_lines = len(model_in)
+    if drv and ncorr < 0.9 * n_model_lines:
+        floor_missed.append("model/implementation correspondence: %d comparisons, %d model lines generated" % (ncorr, n_model_lines))
+    if len(fields) < n_fields_generated:
+        floor_missed.append("GFqDom fields compared: %d of %d generated" % (len(fields), n_fields_generated))
+    if dist.get("ext:lines-compared", 0) < 0.9 * dist.get("ext:lines-generated", 1):
+        floor_missed.append("Extension/GFqExt/GF2 stream: %d of %d lines compared" % (dist.get("ext:lines-compared", 0), dist.get("ext:lines-generated", 0)))
+    if drv and (dist.get("gf2:model-correspondence", 0) < 1000 or dist.get("qadic:model-correspondence", 0) < 300 or dist.get("ext:model-correspondence", 0) < 3000):
+        floor_missed.append("GF2 / q-adic / Extension model correspondence: %s / %s / %s lines" % (dist.get("gf2:model-correspondence", 0), dist.get("qadic:model-correspondence", 0), dist.get("ext:model-correspondence", 0)))
+    if hcnt is not None and dist_cnt["count-config:lines-compared"] < 5000:
+        floor_missed.append("__GIVARO_COUNT__ configuration: %d lines compared" % dist_cnt["count-config:lines-compared"])
+    if chk.cov.get("obligations", 0) != chk.cov.get("discharged", 0):
+        floor_missed.append("theorems re-checked: %s of %s" % (chk.cov.get("discharged"), chk.cov.get("obligations")))
+    chk.cov["floor"] = {"model_lines": n_model_lines, "correspondence_comparisons": ncorr, "fields_generated": n_fields_generated, "fields_compared": len(fields),
+                        "ext_lines_generated": dist.get("ext:lines-generated", 0), "ext_lines_compared": dist.get("ext:lines-compared", 0),
+                        "count_config_lines": dist_cnt["count-config:lines-compared"]}
+    if floor_missed or chk.cov.get("inconclusive"):
+        chk.cov["floor_missed"] = floor_missed
+        print("INCONCLUSIVE property=C05 (tooling, not a verdict): %s" % "; ".join((chk.cov.get("inconclusive") or []) + floor_missed)[:1500], flush=True)
     chk.cov["ways_of_obtaining_the_field_object"] = {k: v for k, v in sorted(dist.items()) if k.startswith(("way:", "ext:way:", "gext:way:"))}
     return chk.finish()
 
@@ -1078,8 +1183,8 @@ def vec_part(chk, rng, himpl, dist):
         xs = [0, 1, 2, q - 1, q, q + 5, p ** (2 * k) - 1] + [rng.range(1, q * q) for _ in range(12)]
         lines = ["field %d auto %d %d" % (T, p, k)] + ["cvt vec %d" % x for x in xs]
         rc, out, err = run_impl(himpl, "\n".join(lines) + "\n", 120, 1200)
-        if rc == 124:
-            inconclusive(chk, "init(Rep&,Vector) process for GF(%d^%d) reached the wall-clock limit" % (p, k))
+        if nonverdict(rc):
+            inconclusive(chk, "init(Rep&,Vector) process for GF(%d^%d): no verdict (rc=%s)" % (p, k, rc))
             continue
         if rc != 0 or len(out) != len(lines):
             chk.fail_input("GFqDom::init(Rep&,Vector)", "crash", {"field": lines[0], "lines": lines[1:]}, "a result per line", "rc=%s, %d/%d lines" % (rc, len(out), len(lines)))
@@ -1127,6 +1232,39 @@ def ff_subexponent_max(p, e):
     return f
 
 
+C09_NEEDED = ["Model.vo", "ProofsAlg.vo", "ProofsDiv.vo", "ProofsIrr.vo"]
+
+
+def coq_props_needed_only():
+    """vf.coq_check_props for coq/C05, except that of the area imported read-only (coq/C09) ONLY the four objects coq/C05 needs
+    are (re)built (make decides whether they are up to date) - a slow or broken file elsewhere in coq/C09, or its Properties.v,
+    is none of C05's business.  Same result dictionary; same steps otherwise (everything but Properties.v by make, Properties.v
+    once by coqc with its Print Assumptions output, forbidden-construct scan)."""
+    d = vf.coq_dir(AREA)
+    res = {"ok": False, "theorems": [], "assumptions": {}, "log": "", "forbidden": vf.forbidden_scan(d)}
+    pf = os.path.join(d, "Properties.v")
+    res["theorems"] = vf.coq_theorems(pf)
+    ok9, out9 = vf.coq_make("C09", targets=C09_NEEDED, jobs=4, _depth=3)
+    if not ok9:
+        res["log"] = "coq/C09 objects needed by coq/C05 (%s) do not build:\n%s" % (" ".join(C09_NEEDED), out9[-3000:])
+        return res
+    others = [l.strip() + "o" for l in open(os.path.join(d, "_CoqProject")) if l.strip().endswith(".v") and not l.startswith("-") and l.strip() != "Properties.v"]
+    ok, out = vf.coq_make(AREA, targets=others, _depth=3)
+    res["log"] = out[-6000:]
+    rc, o = vf.sh(["coqc"] + vf.coqproject_args(d) + ["Properties.v"], cwd=d, timeout=1500)
+    res["assumptions"] = vf.parse_assumptions(o, res["theorems"])
+    if rc != 0:
+        res["log"] += "\n" + o[-3000:]
+    if ok and rc == 0:
+        ok2, out2 = vf.coq_make(AREA, _depth=3)
+        if not ok2:
+            ok = False
+            res["log"] += "\n" + out2[-3000:]
+    if ok and rc == 0 and os.path.exists(pf[:-2] + ".vo") and not res["forbidden"]:
+        res["ok"] = True
+    return res
+
+
 def run_impl(binary, text, cpu_s, wall_s):
     """run an implementation harness under a CPU-time limit and a generous wall-clock limit.  A hang inside the library
     burns CPU and is killed by SIGXCPU after cpu_s seconds of CPU whatever the machine load is (verdict: hang); reaching
@@ -1134,7 +1272,31 @@ def run_impl(binary, text, cpu_s, wall_s):
     return vf.run_lines("/bin/sh", text, timeout=wall_s, args=("-c", 'ulimit -t %d; exec "$0"' % cpu_s, binary))
 
 
-CPU_KILLED = (-24, -9, 152, 137)
+CPU_KILLED = (-24, 152)          # SIGXCPU only: proves that the CPU budget was used up
+OUTSIDE_KILL = (-9, 137)        # SIGKILL: OOM killer / operator - says nothing about the library
+
+
+def nonverdict(rc):
+    return rc == 124 or rc in OUTSIDE_KILL
+
+
+def confirm_hang(chk, binary, field_line, case_line, cpu_s):
+    """the stream was killed by SIGXCPU while working on case_line: re-run that one case alone (after its field line) with a
+    larger CPU budget.  True = it does not return either (a concrete failing input); False = it returns alone, i.e. the
+    stream as a whole used up its budget (inconclusive, recorded)."""
+    lines = [l for l in (field_line, case_line) if l]
+    if case_line == field_line:
+        lines = [field_line]
+    rc, out, err = run_impl(binary, "\n".join(lines) + "\n", cpu_s, 3600)
+    if rc in CPU_KILLED:
+        return True
+    if rc == 0 and len([o for o in out if not o.startswith("WARNING")]) == len(lines):
+        inconclusive(chk, "stream exceeded its CPU budget at '%s' but the case alone returns" % case_line[:100])
+        return False
+    if nonverdict(rc):
+        inconclusive(chk, "re-run of '%s' alone ended with rc=%s (no verdict)" % (case_line[:100], rc))
+        return False
+    return True          # crashes alone as well: reported by the caller as the failing input
 
 
 def inconclusive(chk, what):
@@ -1179,8 +1341,8 @@ def e1_part(chk, rng, himpl, dist):
         dist["form:GFqDom::GFqDom(P,1,modPoly%s)" % ("" if gen is None else ",genPoly")] = dist.get("form:GFqDom::GFqDom(P,1,modPoly%s)" % ("" if gen is None else ",genPoly"), 0) + 1
         chk.count(("e1", head))
         case = {"field": head}
-        if rc == 124:
-            inconclusive(chk, "process for '%s' reached the wall-clock limit" % head)
+        if nonverdict(rc):
+            inconclusive(chk, "process for '%s': no verdict (rc=%s)" % (head, rc))
             continue
         if rc != 0 or len(out) != len(lines):
             chk.fail_input(site, "e=1", case, "a field and %d answers" % (len(lines) - 1), "rc=%s, %d/%d lines" % (rc, len(out), len(lines)), err[-300:])
@@ -1414,17 +1576,19 @@ def ext_part(chk, rng, tier, dist, drv=None):
             xs = [ez() if not rng.chance(1, 5) else q - 1 for _ in range(n)]
             ys = [ez() if not rng.chance(1, 5) else q - 1 for _ in range(n)]
             L.append(("gdot %d | %s | %s" % (n, " ".join(map(str, xs)), " ".join(map(str, ys))), "gdot", (xs, ys)))
+    dist["ext:lines-generated"] = len(L)
     rc, out, err = run_impl(h, "\n".join(x[0] for x in L) + "\n", 240 if tier == "quick" else 1800, 1800 if tier == "quick" else 5400)
     out = [o for o in out if not o.startswith("WARNING")]
-    if rc == 124:
-        inconclusive(chk, "Extension/GFqExt/GF2 harness reached the wall-clock limit after %d/%d lines" % (len(out), len(L)))
-        return
-    if rc != 0 or len(out) != len(L):
+    if nonverdict(rc):
+        inconclusive(chk, "Extension/GFqExt/GF2 harness: %s after %d/%d lines" % ("wall-clock limit" if rc == 124 else "killed from outside (SIGKILL, rc=%s)" % rc, len(out), len(L)))
+        L = L[:len(out)]
+    elif rc != 0 or len(out) != len(L):
         n = len(out)
         fl = [x[0] for x in L[:n + 1] if x[1] in ("ext", "gext")]
-        chk.fail_input("Extension/GFqExt/GF2 (crash or hang inside the library)", "hang" if rc in CPU_KILLED else "crash",
-                       {"field": fl[-1] if fl else None, "line": L[n][0] if n < len(L) else None},
-                       "an answer", "rc=%s after %d/%d lines" % (rc, n, len(L)), err[-500:])
+        if rc not in CPU_KILLED or confirm_hang(chk, h, fl[-1] if fl else None, L[n][0] if n < len(L) else None, 600):
+            chk.fail_input("Extension/GFqExt/GF2 (crash or hang inside the library)", "does not return" if rc in CPU_KILLED else "crash",
+                           {"field": fl[-1] if fl else None, "line": L[n][0] if n < len(L) else None},
+                           "an answer", "rc=%s after %d/%d lines" % (rc, n, len(L)), err[-500:])
         L = L[:n]          # the answered prefix is still compared (it usually shows the element-level cause)
     P = None
     ctx = None
@@ -1433,6 +1597,7 @@ def ext_part(chk, rng, tier, dist, drv=None):
     gq = []          # (impl line, impl answer, model line) of the GF2 operations (GF2Model.v)
     gmax = {}        # field -> (p, k, bits, maxdot()) as the implementation reports them
     qq = []          # (field, impl line, impl p-adic answer, model line) of the q-adic decodes (QadicModel.v)
+    dist["ext:lines-compared"] = len(L)
     def form(name):
         dist["form:" + name] = dist.get("form:" + name, 0) + 1
     gcls = "GFqExtFast"
